@@ -465,10 +465,12 @@ fn check_balance<'ctx>(
         "balance before rounding in txn: {}",
         balance.as_inline_display()
     );
-    let balance = balance.round(ctx);
+    let mut balance = balance.round(ctx);
     if balance.is_zero() {
         return Ok(());
     }
+    // commodities which cancel out don't take part in the implied exchange.
+    balance.remove_zero_entries();
     if let Some((a1, a2)) = balance.maybe_pair() {
         // fill in converted amount.
         for p in postings.iter_mut() {
